@@ -10,6 +10,11 @@ from cogent3.app.composable import NotCompleted, define_app
 from cogent3.app.typing import SeqsCollectionType, SerialisableType
 
 
+# (tag, stem) of every record a planned step was asked to process, in order;
+# only the simulator reads it ("processes only what is missing")
+CALL_LOG = []
+
+
 def stem_of(source) -> str:
     name = os.path.basename(str(source))
     for sfx in (".fasta", ".fa", ".json"):
@@ -30,6 +35,7 @@ class planned:
 
     def main(self, seqs: SeqsCollectionType) -> T:
         stem = stem_of(seqs.info.source)
+        CALL_LOG.append((self.tag, stem))
         outcome = self.outcomes.get(stem, "ok")
         if outcome == "raise":
             raise ValueError(f"planned failure of {stem} in {self.tag}")
